@@ -883,7 +883,14 @@ class BaseConnector:
 
         self._release_acquired(key, protocol)
 
-        if self._force_close or should_close or protocol.should_close:
+        # A keep-alive timeout <= 0 never arms the clean-up timer and _get()
+        # considers such an idle connection expired: pooling it would leak it.
+        if (
+            self._force_close
+            or should_close
+            or protocol.should_close
+            or (self._keepalive_timeout is not None and self._keepalive_timeout <= 0)
+        ):
             transport = protocol.transport
             protocol.close()
             if key.is_ssl and not self._cleanup_closed_disabled:
